@@ -74,7 +74,8 @@ func (p *resultsPrinter) PrintResults(matchingNodes *list.List) error {
 
 	if matchingNodes.Len() == 0 {
 		log.Debug("no matching results, nothing to print")
-		return nil
+		// the text behind a front matter is kept whatever the expression yields
+		return p.printAppendix()
 	}
 
 	if !p.encoder.CanHandleAliases() {
@@ -151,6 +152,10 @@ func (p *resultsPrinter) PrintResults(matchingNodes *list.List) error {
 		log.Debugf("done printing results")
 	}
 
+	return p.printAppendix()
+}
+
+func (p *resultsPrinter) printAppendix() error {
 	// what happens if I remove output format check?
 	if p.appendixReader != nil {
 		writer, err := p.printerWriter.GetWriter(nil)
